@@ -1,4 +1,15 @@
 mod auth;
+#[cfg(feature = "fuellabs_sway_verif")]
+pub mod verif;
+
+/// A fault-injection point of the crash-safety check (see `verif.rs`). Expands to nothing unless
+/// the cargo feature `fuellabs_sway_verif` is enabled.
+macro_rules! verif_fault {
+    ($name:expr) => {
+        #[cfg(feature = "fuellabs_sway_verif")]
+        verif::point($name)?;
+    };
+}
 
 use crate::manifest::GenericManifestFile;
 use crate::{
@@ -196,6 +207,7 @@ impl source::Fetch for Pinned {
     fn fetch(&self, ctx: source::PinCtx, repo_path: &Path) -> Result<PackageManifestFile> {
         // Co-ordinate access to the git checkout directory using an advisory file lock.
         let mut lock = forc_util::path_lock(repo_path)?;
+        verif_fault!("lock_file_created");
         // TODO: Here we assume that if the local path already exists, that it contains the
         // full and correct source for that commit and hasn't been tampered with. This is
         // probably fine for most cases as users should never be touching these
@@ -206,11 +218,13 @@ impl source::Fetch for Pinned {
         {
             let _guard = lock.write()?;
             if !repo_path.exists() {
+                verif_fault!("fetch_needed");
                 println_action_green(
                     "Fetching",
                     &format!("{} {}", ansiterm::Style::new().bold().paint(ctx.name), self),
                 );
                 fetch(ctx.fetch_id(), ctx.name(), self)?;
+                verif_fault!("fetch_done");
             }
         }
         let path = {
@@ -425,9 +439,11 @@ where
 {
     // Clear existing temporary directory if it exists.
     let repo_dir = tmp_git_repo_dir(fetch_id, name, &source.repo);
+    verif_fault!("tmp_repo_begin");
     if repo_dir.exists() {
         let _ = std::fs::remove_dir_all(&repo_dir);
     }
+    verif_fault!("tmp_repo_cleared");
 
     // Add a guard to ensure cleanup happens if we got out of scope whether by
     // returning or panicking.
@@ -449,6 +465,7 @@ where
     // Initialise the repository.
     let repo = git2::Repository::init(&repo_dir)
         .map_err(|e| anyhow!("failed to init repo at \"{}\": {}", repo_dir.display(), e))?;
+    verif_fault!("tmp_repo_inited");
 
     // Fetch the necessary references.
     let (refspecs, tags) = git_ref_to_refspecs(&source.reference);
@@ -469,9 +486,11 @@ where
                 &repo_url_string
             )
         })?;
+    verif_fault!("tmp_repo_fetched");
 
     // Call the user function.
     let output = f(repo)?;
+    verif_fault!("tmp_repo_used");
     Ok(output)
 }
 
@@ -523,18 +542,26 @@ pub fn fetch(fetch_id: u64, name: &str, pinned: &Pinned) -> Result<PathBuf> {
         // Change HEAD to point to the pinned commit.
         let id = git2::Oid::from_str(&pinned.commit_hash)?;
         repo.set_head_detached(id)?;
+        verif_fault!("head_set");
 
         // If the directory exists, remove it. Note that we already check for an existing,
         // cached checkout directory for re-use prior to reaching the `fetch` function.
         if path.exists() {
             let _ = fs::remove_dir_all(&path);
         }
+        verif_fault!("checkout_dir_removed");
         fs::create_dir_all(&path)?;
+        verif_fault!("checkout_dir_created");
 
         // Checkout HEAD to the target directory.
         let mut checkout = git2::build::CheckoutBuilder::new();
         checkout.force().target_dir(&path);
+        #[cfg(feature = "fuellabs_sway_verif")]
+        let verif_checkout_guard = verif::checkout_points(&mut checkout);
         repo.checkout_head(Some(&mut checkout))?;
+        #[cfg(feature = "fuellabs_sway_verif")]
+        drop(verif_checkout_guard);
+        verif_fault!("checkout_done");
 
         // Fetch HEAD time and create an index
         let current_head = repo.revparse_single("HEAD")?;
@@ -553,6 +580,7 @@ pub fn fetch(fetch_id: u64, name: &str, pinned: &Pinned) -> Result<PathBuf> {
             path.join(".forc_index"),
             serde_json::to_string(&source_index)?,
         )?;
+        verif_fault!("index_file_written");
         Ok(())
     })?;
     Ok(path)
